@@ -164,7 +164,45 @@ pub fn key_clean() -> bool {
 
 /// Run `f` over all cases in parallel. Each worker is a fresh OS thread; a worker whose
 /// thread-local key was leaked by a case retires and is replaced.
+/// Longest a single case may run before the check gives up (cases take milliseconds; rustc cases seconds).
+const STUCK_CASE_SECS: u64 = 180;
+
 pub fn par_cases<C: Sync, R: Send>(cases: &[C], f: impl Fn(usize, &C) -> R + Sync) -> Vec<R> {
+	// stuck-case watchdog: (case index + 1, start time in ms since the sweep began) per running case
+	let t0 = std::time::Instant::now();
+	let running: Mutex<std::collections::BTreeMap<usize, u128>> = Mutex::new(Default::default());
+	let finished = std::sync::atomic::AtomicBool::new(false);
+	let f = |i: usize, c: &C| -> R {
+		running.lock().unwrap().insert(i, t0.elapsed().as_millis());
+		let r = f(i, c);
+		running.lock().unwrap().remove(&i);
+		r
+	};
+	let out = std::thread::scope(|ws| {
+		ws.spawn(|| {
+			while !finished.load(Ordering::Relaxed) {
+				std::thread::sleep(std::time::Duration::from_millis(500));
+				// the clock is read under the lock and the difference saturates: a case registered after `now` was
+				// taken must not look infinitely old
+				let stuck: Option<usize> = {
+					let g = running.lock().unwrap();
+					let now = t0.elapsed().as_millis();
+					g.iter().find(|(_, st)| now.saturating_sub(**st) > STUCK_CASE_SECS as u128 * 1000).map(|(i, _)| *i)
+				};
+				if let Some(i) = stuck {
+					eprintln!("MACHINERY-ERROR: case #{} of a sweep of {} cases has been running for more than {} s (an operation that neither returns nor reaches a raw lock operation); giving up", i, cases.len(), STUCK_CASE_SECS);
+					std::process::exit(3);
+				}
+			}
+		});
+		let r = par_cases_inner(cases, &f);
+		finished.store(true, Ordering::Relaxed);
+		r
+	});
+	out
+}
+
+fn par_cases_inner<C: Sync, R: Send>(cases: &[C], f: &(dyn Fn(usize, &C) -> R + Sync)) -> Vec<R> {
 	let next = AtomicUsize::new(0);
 	let out: Mutex<Vec<(usize, R)>> = Mutex::new(Vec::with_capacity(cases.len()));
 	let nworkers = crate::conc::workers().min(cases.len().max(1));
